@@ -374,7 +374,15 @@ fn main() {
                 let b = ndt.format_with_items(j.items.iter()).to_string();
                 acc.transitions += 1;
                 if a != b {
-                    acc.violation("format vs format_with_items", format!("{:?}.format({:?})", ndt, j.fmt), b, a);
+                    acc.violation("format vs format_with_items", format!("{:?}.format({:?})", ndt, j.fmt), b, a.clone());
+                }
+                // the rendering is one string for the formatter's width / alignment / fill flags (std's rules for &str)
+                acc.transitions += 1;
+                let w = a.chars().count() + 3;
+                let got = (format!("{:>w$}", ndt.format(&j.fmt), w = w), format!("{:*<w$}", ndt.format(&j.fmt), w = w), format!("{:^w$}", ndt.format(&j.fmt), w = w), format!("{:1}", ndt.format(&j.fmt)));
+                let want = (format!("{:>w$}", a, w = w), format!("{:*<w$}", a, w = w), format!("{:^w$}", a, w = w), a.clone());
+                if got != want {
+                    acc.violation("DelayedFormat:width-and-alignment", format!("format!(\"{{:>w$}}\" / \"{{:*<w$}}\" / \"{{:^w$}}\" / \"{{:1}}\", {:?}.format({:?})), w = {}", ndt, j.fmt, w), format!("{:?}", want), format!("{:?}", got));
                 }
             }
             acc.traces += 1;
